@@ -1,7 +1,9 @@
 package rules
 
 import (
+	"go/constant"
 	"go/token"
+	"go/types"
 	"strings"
 
 	"golang.org/x/tools/go/ssa"
@@ -326,6 +328,8 @@ func (u *upgA) noSplit() {
 // after that comparison succeeded.
 func (u *upgA) tokenListOWS(rule string) {
 	c, r := u.c, u.c.R
+	allHeaderLines(c, rule, "tokenListContainsValue")
+	skipSpaceASCII(c, rule)
 	skip, next, fold := c.fn("skipSpace"), c.fn("nextToken"), c.fn("equalASCIIFold")
 	ok, why := true, "tokens scanned after skipSpace; separator tested after skipSpace; true only via equalASCIIFold(token, value)"
 	nTrue, nSep := 0, 0
@@ -416,3 +420,83 @@ func quotedPairs(c *Ctx, rule string) {
 }
 
 func litPos(c *Ctx, l core.Lit) string { return c.P.LitPos(l) }
+
+// allHeaderLines: a header may be sent as several field lines (RFC 7230 3.2.2); the scanners of token lists
+// and extension lists look at every line.  http.Header.Get returns the first line only, so a scanner that
+// obtains its input through Get silently ignores tokens on later lines.  Necessary condition: the function
+// (and helpers extracted from it) indexes the header map or calls Values, and never calls Get.
+func allHeaderLines(c *Ctx, rule string, names ...string) {
+	for _, name := range names {
+		fn := c.fn(name)
+		fns := []*ssa.Function{fn}
+		for callee := range c.P.Mod(fn).Callees {
+			if c.isNewHelper(callee, 1) {
+				fns = append(fns, callee)
+			}
+		}
+		isHeader := func(t types.Type) bool {
+			nt, isN := t.(*types.Named)
+			return isN && nt.Obj().Pkg() != nil && nt.Obj().Pkg().Path() == "net/http" && nt.Obj().Name() == "Header"
+		}
+		ok, why := true, "the scanner ranges over every line of the header (header[name] / Values), never over Get's first line"
+		all := 0
+		for _, f := range fns {
+			for _, b := range f.Blocks {
+				for _, in := range b.Instrs {
+					switch v := in.(type) {
+					case *ssa.Lookup:
+						if isHeader(v.X.Type()) {
+							all++
+						}
+					case *ssa.Call:
+						if callee := v.Call.StaticCallee(); callee != nil {
+							switch extName(callee) {
+							case "(net/http.Header).Values":
+								all++
+							case "(net/http.Header).Get":
+								ok, why = false, shortFn(f)+" reads the header through Header.Get at "+c.P.Pos(v.Pos())+": only the first of several field lines is examined, tokens on later lines (a second Connection, Upgrade, Sec-WebSocket-Version or Sec-WebSocket-Extensions line) are ignored"
+							}
+						}
+					}
+				}
+			}
+		}
+		if ok && all == 0 {
+			ok, why = false, "no access to all lines of the header found in "+name+" (neither header[name] nor Values)"
+		}
+		c.R.Check(rule, shortFn(fn), "every-header-line-scanned", fn.Pos(), ok, why)
+	}
+}
+
+// skipSpaceASCII: optional whitespace in these lists is SP / HTAB (RFC 7230 OWS).  skipSpace must not consume
+// anything else: a Unicode-aware trim (unicode.IsSpace, strings.TrimSpace, Fields) treats NBSP, NEL, U+3000 ...
+// as separators and accepts malformed token lists.  Necessary condition: skipSpace calls nothing outside the
+// package, and every byte comparison it makes is against ' ' or '\t'.
+func skipSpaceASCII(c *Ctx, rule string) {
+	fn := c.fn("skipSpace")
+	ok, why := true, "skipSpace compares bytes against ' ' and '\\t' only and calls no library function"
+	n := 0
+	for _, b := range fn.Blocks {
+		for _, in := range b.Instrs {
+			switch v := in.(type) {
+			case *ssa.Call:
+				if _, isBuiltin := v.Call.Value.(*ssa.Builtin); isBuiltin {
+					continue
+				}
+				if callee := v.Call.StaticCallee(); callee == nil || callee.Pkg != fn.Pkg {
+					ok, why = false, "skipSpace delegates to "+v.Call.String()+" at "+c.P.Pos(v.Pos())+": library trimming/splitting helpers use Unicode white space (NBSP, NEL, U+3000, ...), which is not optional whitespace in a header token list"
+				}
+			case *ssa.BinOp:
+				if k, isK := v.Y.(*ssa.Const); isK && k.Value != nil && (v.Op == token.EQL || v.Op == token.NEQ) {
+					if bt, isB := v.X.Type().Underlying().(*types.Basic); isB && (bt.Kind() == types.Uint8 || bt.Kind() == types.Byte) {
+						n++
+						if x, exact := constant.Int64Val(constant.ToInt(k.Value)); !exact || (x != ' ' && x != '\t') {
+							ok, why = false, "skipSpace skips a byte other than space and tab"
+						}
+					}
+				}
+			}
+		}
+	}
+	c.R.Check(rule, shortFn(fn), "skips-SP-and-HTAB-only", fn.Pos(), ok && n >= 1, why)
+}
